@@ -1,4 +1,6 @@
 import Sudachi.Proofs.Lattice
+import Sudachi.Proofs.LatticeRec
+import Sudachi.Proofs.LatticeI32
 /-!
 # C02 — The chosen segmentation is a minimum-cost lattice path (Viterbi optimality)
 
@@ -17,7 +19,13 @@ Back-pointers: the model recomputes the pointer of a node by `Vit.argmin` on the
 instead of storing it at insertion (`argmin_spec`, `stored_total_is_connect`: same value);
 `Vit.bestPath` follows the pointers from EOS (`fill_top_path`).  `viterbi_path`, `total_prefix`,
 `path_contiguous` are the theorems about the returned chain; `*_exec` restate them for the
-vector-of-rows lattice the driver executes.
+vector-of-rows lattice the driver executed in the first round.
+
+Second round (what `vdriver` executes now): `Vit.Lat` is the RECYCLED `struct Lattice` — three parallel row
+vectors that never shrink, `size`, `eos`, `reset`/`reset_vec`/`connect_bos`, stored `indices` — and the
+`recycled_*` theorems transfer everything above to it for EVERY previous state
+(`reset_then_build_eq_fresh`); `partial_clear_counterexample` is the seeded change C02b;
+`i32_lattice_eq_model` is the side condition under which the `i32` code (C03's model) equals this one.
 -/
 namespace C02
 open Vit
@@ -228,6 +236,248 @@ theorem total_prefix_exec (F : List Node) (hwf : WF F) (hs : F.Pairwise (fun a b
   have hne : n ≠ bos := by
     intro hc; have := hwf n hnF; rw [hc] at this; simp [bos] at this
   exact (stored_total_is_connect conn F hwf hs n.e n _ h1 hne).symm
+
+/-! ## the RECYCLED lattice (`Lattice::reset`/`reset_vec`, `size`, `connect_bos`, stored `indices`)
+
+`Vit.Lat` (`Model/LatticeRec.lean`) is `struct Lattice` as it is: three parallel row vectors that never
+shrink, `size`, `eos`; `reset`, `insertS`, `connectEosS`, `fillTopPath`, `nodeS` transcribe the Rust
+functions, `none` = the Rust code would panic (index out of bounds, `size - 1` underflow) or `fill_top_path`
+would not terminate.  `s` below is ANY previous state: any rows (also inconsistent ones), any `size`, any
+`eos`.  `F` is the list of candidates of the new text in insertion order, all inside the text
+(`n.e ≤ len`; proved of the builder in C03 `candidates_inside_text`). -/
+
+/-- **`reset` then the insertion sequence = the lattice built from scratch.**  For EVERY previous state:
+`reset(len)` and all `insert`s succeed (no index panic), `size = len + 1`, `eos = None`, and on every valid
+row `e ≤ len` the three vectors are exactly the images of the functional rows `build conn F init e` the
+optimality theorems speak about: `ends[e]` = (right id, total) of every entry incl. the BOS entry of row 0,
+`ends_full[e]` = the nodes (without BOS), `indices[e]` = the `connect_node` pointers `buildP`.  Rows past
+`size` that stay allocated are EMPTY, and each vector holds `max(previous length, len + 1)` rows (it never
+shrinks).  No hypothesis on the order or shape of `F` beyond lying inside the text. -/
+theorem reset_then_build_eq_fresh (s : Lat) (len : Nat) (F : List Node) (hF : ∀ n ∈ F, n.b ≤ len ∧ n.e ≤ len) :
+    ∃ s1 s2, reset s len = some s1 ∧ buildS conn F s1 = some s2 ∧ s2.size = len + 1 ∧ s2.eos = none ∧
+      (∀ e, e ≤ len →
+        s2.ends[e]? = some ((build conn F init e).map vn) ∧
+        s2.full[e]? = some (((build conn F init e).map (·.1)).drop (off e)) ∧
+        s2.idx[e]? = some (buildP conn F init initP e)) ∧
+      (∀ e, len < e → (∀ row, s2.ends[e]? = some row → row = []) ∧ (∀ row, s2.full[e]? = some row → row = []) ∧
+        (∀ row, s2.idx[e]? = some row → row = [])) ∧
+      s2.ends.length = max s.ends.length (len + 1) ∧ s2.full.length = max s.full.length (len + 1) ∧
+      s2.idx.length = max s.idx.length (len + 1) := by
+  obtain ⟨s1, s2, h1, h2, hsim, h4, l1, l2, l3, _⟩ := analyse_spec conn s len F hF
+  exact ⟨s1, s2, h1, h2, hsim.size, h4, fun e he => ⟨hsim.ends e he, hsim.full e he, hsim.idx e he⟩, hsim.clean,
+    l1, l2, l3⟩
+
+/-- the same, as the history-independence it is: whatever the lattice held before, the valid rows after
+`reset` + inserts are those of a NEW tokenizer (`Lattice::default()`) -/
+theorem recycled_eq_new_tokenizer (s : Lat) (len : Nat) (F : List Node) (hF : ∀ n ∈ F, n.b ≤ len ∧ n.e ≤ len) :
+    ∃ s2 t2, (reset s len).bind (buildS conn F) = some s2 ∧ (reset Lat.empty len).bind (buildS conn F) = some t2 ∧
+      s2.size = t2.size ∧ s2.eos = t2.eos ∧
+      ∀ e, e < s2.size → s2.ends[e]? = t2.ends[e]? ∧ s2.full[e]? = t2.full[e]? ∧ s2.idx[e]? = t2.idx[e]? := by
+  obtain ⟨s1, s2, a1, a2, a3, a4, a5, _⟩ := reset_then_build_eq_fresh conn s len F hF
+  obtain ⟨t1, t2, b1, b2, b3, b4, b5, _⟩ := reset_then_build_eq_fresh conn Lat.empty len F hF
+  refine ⟨s2, t2, by simp [a1, a2], by simp [b1, b2], by rw [a3, b3], by rw [a4, b4], ?_⟩
+  intro e he
+  rw [a3] at he
+  obtain ⟨x1, x2, x3⟩ := a5 e (by omega)
+  obtain ⟨y1, y2, y3⟩ := b5 e (by omega)
+  exact ⟨by rw [x1, y1], by rw [x2, y2], by rw [x3, y3]⟩
+
+/-- **The seeded partial clear is NOT covered** (`seeded/C02b`: `reset_vec` clears only the first
+`min(previous size, new size)` rows).  Kernel-checked witness with connection cost 0: the texts have
+3, 1, 3 characters; the first leaves a node `1..3` of cost -500 (total -400) in row 3, the second clears rows
+0..1 only and sets `size = 2`, the third clears rows 0..1 again.  Its candidates are three one-character words
+of cost 100: the stale entry in row 3 (total -400) wins `connect_eos`, although the only covering sequence
+costs 300 — while `reset` (the code) returns 300 from the same previous state. -/
+theorem partial_clear_counterexample :
+    let conn : Nat → Nat → Int := fun _ _ => 0
+    let t1 : List Node := [⟨0, 1, 0, 0, 100⟩, ⟨1, 3, 0, 0, -500⟩]
+    let t2 : List Node := [⟨0, 1, 0, 0, 100⟩]
+    let t3 : List Node := [⟨0, 1, 0, 0, 100⟩, ⟨1, 2, 0, 0, 100⟩, ⟨2, 3, 0, 0, 100⟩]
+    let run := fun (rst : Lat → Nat → Option Lat) (s : Lat) (len : Nat) (F : List Node) =>
+      ((rst s len).bind (buildS conn F)).bind (connectEosS conn)
+    -- the seeded variant, three analyses on one lattice
+    (((run resetSeed Lat.empty 3 t1).bind (fun x => run resetSeed x.1 1 t2)).bind
+        (fun x => run resetSeed x.1 3 t3)).map (fun x => x.1.eos) = some (some ((3, 0), -400)) ∧
+    -- the code, same three analyses
+    (((run reset Lat.empty 3 t1).bind (fun x => run reset x.1 1 t2)).bind
+        (fun x => run reset x.1 3 t3)).map (fun x => x.1.eos) = some (some ((3, 0), 300)) ∧
+    -- the only covering sequence of the third text costs 300
+    eosCost conn (build conn t3 init) 3 = some 300 := by
+  refine ⟨by decide, by decide, by decide⟩
+
+/-- **`viterbi_min` for the recycled lattice.**  After `reset` + inserts on any previous state, every valid
+row is the image of a list of entries whose totals are the minimum over all candidate chains from BOS
+(`none` = `i32::MAX` iff no chain reaches the node), and every candidate is stored in the row of its end. -/
+theorem recycled_viterbi_min (s : Lat) (len : Nat) (F : List Node) (hwf : WF F)
+    (hs : F.Pairwise (fun a b => a.b ≤ b.b)) (hF : ∀ n ∈ F, n.e ≤ len) :
+    ∃ s2, (reset s len).bind (buildS conn F) = some s2 ∧
+      ∀ e, e ≤ len → ∃ row : List Entry,
+        s2.ends[e]? = some (row.map vn) ∧ s2.full[e]? = some ((row.map (·.1)).drop (off e)) ∧
+        (∀ ent ∈ row, Opt conn F ent.1 ent.2) ∧ ∀ m ∈ F, m.e = e → ∃ t, (m, t) ∈ row := by
+  have hF' : ∀ n ∈ F, n.b ≤ len ∧ n.e ≤ len := fun n hn => ⟨by have := hwf n hn; have := hF n hn; omega, hF n hn⟩
+  obtain ⟨s1, s2, a1, a2, _, _, a5, _⟩ := reset_then_build_eq_fresh conn s len F hF'
+  obtain ⟨v1, v2⟩ := viterbi_min conn F hwf hs
+  refine ⟨s2, by simp [a1, a2], ?_⟩
+  intro e he
+  obtain ⟨x1, x2, _⟩ := a5 e he
+  exact ⟨build conn F init e, x1, x2, v1 e, fun m hm hme => by obtain ⟨t, ht⟩ := v2 m hm; exact ⟨t, hme ▸ ht⟩⟩
+
+/-- **The search on a recycled lattice never panics and reports the functional `eosCost`.**  For every
+previous state, `reset`, all inserts and `connect_eos` succeed; `Err(EosBosDisconnect)` (`false`, `eos` stays
+`None`) iff no covering sequence of candidates exists; otherwise `eos = Some((len, j), v)` where `v` is
+attained by a covering sequence and no covering sequence is cheaper (BOS and EOS connections included) and
+`j` is the first index of row `len` attaining it. -/
+theorem recycled_optimal (s : Lat) (len : Nat) (F : List Node) (hwf : WF F)
+    (hs : F.Pairwise (fun a b => a.b ≤ b.b)) (hF : ∀ n ∈ F, n.e ≤ len) :
+    ∃ s3 b, analyse conn s len F = some (s3, b) ∧ s3.size = len + 1 ∧
+      (b = false ↔ ¬ ∃ ws, IsChain F bos ws ∧ lastEnd bos ws = len) ∧
+      (b = false → s3.eos = none) ∧
+      (b = true → ∃ j v, s3.eos = some ((len, j), v) ∧
+        argmin conn (build conn F init len) (eosNode len) = some (j, v) ∧
+        (∃ ws, IsChain F bos ws ∧ lastEnd bos ws = len ∧ chainCost conn bos ws = v) ∧
+        ∀ ws, IsChain F bos ws → lastEnd bos ws = len → v ≤ chainCost conn bos ws) := by
+  have hF' : ∀ n ∈ F, n.b ≤ len ∧ n.e ≤ len := fun n hn => ⟨by have := hwf n hn; have := hF n hn; omega, hF n hn⟩
+  obtain ⟨s1, s2, _, _, hsim, h4, _, _, _, ha⟩ := analyse_spec conn s len F hF'
+  have hd := disconnected_iff conn F hwf hs len
+  cases hv : eosCost conn (build conn F init) len with
+  | none =>
+    rw [hv] at ha
+    exact ⟨s2, false, ha, hsim.size, ⟨fun _ => hd.mp hv, fun _ => rfl⟩, fun _ => h4, fun h => (by cases h)⟩
+  | some v =>
+    rw [hv] at ha
+    refine ⟨_, true, ha, hsim.size, ⟨fun h => (by cases h), fun h => ?_⟩, fun h => (by cases h), fun _ => ?_⟩
+    · have := hd.mpr h; rw [hv] at this; cases this
+    · obtain ⟨j, hj⟩ := connect_argmin conn (build conn F init len) (eosNode len) v hv
+      refine ⟨j, v, by simp only [hj, ptrOf], hj, eos_attained conn F hwf hs len v hv, ?_⟩
+      intro ws hc hl
+      obtain ⟨v', e1, e2⟩ := no_cheaper_covering conn F hwf hs len ws hc hl
+      rw [hv] at e1; cases e1; exact e2
+
+/-- **`viterbi_path` / `total_prefix` / `path_contiguous` for the recycled lattice, over the STORED
+back-pointers.**  Whenever the analysis of a non-empty text on ANY previous state ends with `Ok` (`true`):
+`fill_top_path` — the walk over the stored `indices` from `eos`, nothing recomputed — terminates within
+`size` steps without leaving the vectors, `Lattice::node` succeeds on every index, and the resulting
+`(node, cost)` list `p` (the `ResultNode`s of `resolve_best_path`) satisfies: its nodes are exactly
+`bestPath` of the functional model (so the `argmin` recomputation there and the stored pointers agree), they
+form a covering sequence of candidates whose recomputed cost is the `eos` cost `v` (minimal by
+`recycled_optimal`), ends strictly increase, and the cost carried by the k-th node is `some` of the prefix sum
+of word and connection costs from BOS up to and including it (`Morpheme::total_cost` in mode C). -/
+theorem recycled_path (s : Lat) (len : Nat) (hlen : 0 < len) (F : List Node) (hwf : WF F)
+    (hs : F.Pairwise (fun a b => a.b ≤ b.b)) (hF : ∀ n ∈ F, n.e ≤ len)
+    (s3 : Lat) (h : analyse conn s len F = some (s3, true)) :
+    ∃ id v p, s3.eos = some (id, v) ∧ resolvePath s3 = some p ∧
+      p.map (·.1) = bestPath conn (build conn F init) len ∧
+      IsChain F bos (p.map (·.1)) ∧ lastEnd bos (p.map (·.1)) = len ∧ chainCost conn bos (p.map (·.1)) = v ∧
+      (p.map (·.1)).Pairwise (fun a b => a.e < b.e) ∧
+      ∀ (q₁ q₂ : List (Node × Option Int)) (n : Node) (t : Option Int), p = q₁ ++ (n, t) :: q₂ →
+        t = some (prefixCost conn bos (q₁.map (·.1) ++ [n])) := by
+  have hF' : ∀ n ∈ F, n.b ≤ len ∧ n.e ≤ len := fun n hn => ⟨by have := hwf n hn; have := hF n hn; omega, hF n hn⟩
+  obtain ⟨s1, s2, _, _, hsim, h4, _, _, _, ha⟩ := analyse_spec conn s len F hF'
+  have hfin := fin_build conn F hwf (ordered_of_sorted F hwf hs)
+  cases hv : eosCost conn (build conn F init) len with
+  | none => rw [hv, h] at ha; cases ha
+  | some v =>
+    rw [hv, h] at ha
+    simp only [Option.some.injEq, Prod.mk.injEq, and_true] at ha
+    obtain ⟨p, r1, r2, r3⟩ := resolve_spec conn hsim hfin hlen v hv
+    rw [← ha] at r1
+    obtain ⟨c1, c2, c3, _⟩ := viterbi_path conn F hwf hs len v hv
+    refine ⟨_, v, p, by rw [ha], r1, r2, by rw [r2]; exact c1, by rw [r2]; exact c2, by rw [r2]; exact c3,
+      by rw [r2]; exact (chain_ends F hwf _ bos c1).2.1, ?_⟩
+    intro q₁ q₂ n t hp
+    have hb : bestPath conn (build conn F init) len = q₁.map (·.1) ++ n :: q₂.map (·.1) := by
+      rw [← r2, hp]; simp
+    have hmem : (n, t) ∈ build conn F init n.e := r3 (n, t) (by rw [hp]; simp)
+    exact (total_prefix conn F hwf hs len v hv _ _ n hb).2 t hmem
+
+/-- `path_contiguous` for the recycled lattice: the nodes `resolve_best_path` reads through the stored
+back-pointers start at 0, abut, end at `len`; the byte ends read from any non-decreasing character→byte
+table form a non-decreasing chain ending at `tab[len]`, every access in range (what
+`C01.lattice_tokens_partition` consumes — so the partition theorem holds on recycled tokenizers too). -/
+theorem recycled_path_contiguous (s : Lat) (len : Nat) (hlen : 0 < len) (F : List Node) (hwf : WF F)
+    (hs : F.Pairwise (fun a b => a.b ≤ b.b)) (hF : ∀ n ∈ F, n.e ≤ len)
+    (s3 : Lat) (h : analyse conn s len F = some (s3, true))
+    (tab : List Nat) (htab : tab.Pairwise (· ≤ ·)) (hlt : len < tab.length) :
+    ∃ p, resolvePath s3 = some p ∧ IsChain F bos (p.map (·.1)) ∧ lastEnd bos (p.map (·.1)) = len ∧
+      (((tab[0]?).getD 0) :: (p.map (·.1)).map (fun n => (tab[n.e]?).getD 0)).Pairwise (· ≤ ·) ∧
+      (((tab[0]?).getD 0) :: (p.map (·.1)).map (fun n => (tab[n.e]?).getD 0)).getLast (by simp) = (tab[len]?).getD 0 ∧
+      ∀ x ∈ p, x.1.e < tab.length := by
+  obtain ⟨_, v, p, _, r1, r2, c1, c2, _, _, _⟩ := recycled_path conn s len hlen F hwf hs hF s3 h
+  obtain ⟨d1, d2, d3⟩ := chain_cuts F hwf tab htab (p.map (·.1)) c1 (by rw [c2]; exact hlt)
+  refine ⟨p, r1, c1, c2, by simpa [bos] using d1, ?_, fun x hx => d3 x.1 (List.mem_map.mpr ⟨x, hx, rfl⟩)⟩
+  rw [c2] at d2; simpa [bos] using d2
+
+/-- non-vacuity of the recycled theorems: a DIRTY previous state — five allocated rows, `size = 5`, a stale
+`eos`, a stale cheap node (total -400) in row 3 and a disconnected one in row 4, i.e. beyond the new `size` —
+then the five-candidate text of three characters used above.  The analysis succeeds with the cost `-1` of the
+functional model, the back-pointer stored for EOS is `(3, 1)`, the walk over the stored `indices` visits
+`(2, 0), (3, 1)`, `resolve_best_path` returns the optimal chain with the stored totals `-7, -4`, row 4 is
+empty afterwards; the candidates lie inside the text and the text is non-empty. -/
+example :
+    let conn : Nat → Nat → Int := fun a b => (3 : Int) * a - 2 * b
+    let F : List Node := [⟨0, 1, 1, 1, 5⟩, ⟨0, 2, 2, 2, -3⟩, ⟨1, 2, 3, 3, 4⟩, ⟨1, 3, 1, 2, 7⟩, ⟨2, 3, 2, 1, 1⟩]
+    let s : Lat := ⟨[[⟨0, some 0⟩], [], [], [⟨7, some (-400)⟩], [⟨1, none⟩]],
+      [[], [], [], [⟨1, 3, 0, 7, -500⟩], [⟨2, 4, 1, 1, 5⟩]], [[], [], [], [(1, 0)], [(65535, 65535)]], some ((3, 0), -400), 5⟩
+    (∀ n ∈ F, n.b ≤ 3 ∧ n.e ≤ 3) ∧ 0 < 3 ∧
+    (analyse conn s 3 F).map (fun x => (x.2, x.1.eos, x.1.size)) = some (true, some ((3, 1), -1), 4) ∧
+    (analyse conn s 3 F).bind (fun x => fillTopPath x.1) = some [(2, 0), (3, 1)] ∧
+    (analyse conn s 3 F).bind (fun x => resolvePath x.1) =
+      some [(⟨0, 2, 2, 2, -3⟩, some (-7)), (⟨2, 3, 2, 1, 1⟩, some (-4))] ∧
+    (analyse conn s 3 F).map (fun x => (x.1.ends[4]?, x.1.full[4]?, x.1.idx[4]?)) = some (some [], some [], some []) ∧
+    -- a disconnected text on the same dirty state: `Err(EosBosDisconnect)`, `eos` reset to `None`
+    (analyse conn s 3 [⟨0, 1, 1, 1, 5⟩]).map (fun x => (x.2, x.1.eos)) = some (false, none) := by
+  refine ⟨by decide, by decide, by decide, by decide, by decide, by decide, by decide⟩
+
+/-! ## unbounded costs vs the `i32` accumulator: the side condition under which they coincide -/
+
+/-- **C02 ∘ C03.**  The model above keeps totals in `Int` and writes `none` for the sentinel `i32::MAX`;
+`lattice.rs` adds in `i32` (`(total + connect_cost) + node_cost`, panic on overflow in a debug build) and
+compares with the sentinel.  C03's model `Total.buildAll addI32 I32_MAX` does exactly that.  Under the side
+condition of `C03.cost_no_overflow_partial` — every connection cost in `i16` (`I16Conn`), every candidate
+non-empty, inside the text and with an `i16` word cost (`NodeOk`), at most **32767 characters** — the two
+models coincide: every `i32` insert succeeds, on every row the `i32` lattice holds the same nodes with the
+totals `enc` of the unbounded model (`none` ↦ `i32::MAX`), every connected total of a node ending at `e` lies
+within `± 65536·e` (so `|total| ≤ 2^31 - 65536` and it is never mistaken for the sentinel), and `connect_eos`
+returns `EosBosDisconnect` / the cost and back-pointer that `argmin` gives on the unbounded rows.  Hence all
+optimality theorems of this file hold for the `i32` code within these limits; beyond them D7 (C03) applies. -/
+theorem i32_lattice_eq_model (hconn : Total.I16Conn conn) (len : Nat) (hlen : len ≤ 32767) (F : List Node)
+    (hF : ∀ n ∈ F, Total.NodeOk len n) :
+    ∃ rows ents, Total.buildAll Total.addI32 Total.I32_MAX conn F (Total.reset len) [] = .ok (rows, ents) ∧
+      (∀ e, e ≤ len → ∃ row, rows[e]? = some row ∧
+        row.map (fun x => (x.node, x.total)) = (build conn F init e).map (fun ent => (ent.1, enc ent.2))) ∧
+      (∀ e, e ≤ len → ∀ ent ∈ build conn F init e, ∀ v, ent.2 = some v →
+        -((e : Int) * 65536) ≤ v ∧ v ≤ (e : Int) * 65536 ∧ v < 2147483647) ∧
+      Total.connectEos Total.addI32 Total.I32_MAX conn rows len =
+        (match argmin conn (build conn F init len) (eosNode len) with
+         | none => .err "Disconnect"
+         | some (j, v) => .ok (v, len, Total.asU16 j)) := by
+  obtain ⟨rows, ents, h1, h2, h3⟩ := buildAll_rep conn hconn len hlen F (Total.reset len) init []
+    (Total.reset_inv len) (reset_rep len) hF
+  refine ⟨rows, ents, h1, ?_, ?_, connectEos_rep conn hconn len hlen rows _ h2 h3⟩
+  · intro e he
+    obtain ⟨row, g, rep⟩ := h3 e he
+    exact ⟨row, g, rep.1⟩
+  · intro e he ent hent v hv
+    obtain ⟨row, g, rep⟩ := h3 e he
+    have hne := rep.2 ent hent v hv
+    have hm : (ent.1, enc ent.2) ∈ row.map (fun x => (x.node, x.total)) := by
+      rw [rep.1]; exact List.mem_map.mpr ⟨ent, hent, rfl⟩
+    obtain ⟨x, hx, hxe⟩ := List.mem_map.mp hm
+    simp only [Prod.mk.injEq, hv, enc] at hxe
+    have hb := h2.2 e row g x hx
+    rw [hxe.2] at hb
+    have hb' := hb.resolve_left hne
+    have : (e : Int) ≤ 32767 := by omega
+    omega
+
+/-- non-vacuity of the side condition (and the limit is tight for the invariant: see `C03.cost_overflow_counterexample`) -/
+example : Total.I16Conn (fun _ _ => 32767) ∧ (2 : Nat) ≤ 32767 ∧
+    (∀ n ∈ [(⟨0, 1, 0, 0, 32767⟩ : Node), ⟨1, 2, 0, 0, -32768⟩], Total.NodeOk 2 n) ∧
+    eosCost (fun _ _ => 32767) (build (fun _ _ => 32767) [⟨0, 1, 0, 0, 32767⟩, ⟨1, 2, 0, 0, -32768⟩] init) 2 = some 98300 := by
+  refine ⟨fun _ _ => by constructor <;> simp, by decide, ?_, by decide⟩
+  intro n hn
+  simp only [List.mem_cons, List.not_mem_nil, or_false] at hn
+  rcases hn with rfl | rfl <;> simp [Total.NodeOk]
 
 /-- non-vacuity: three positions, five overlapping candidates, a negative word cost and negative connection costs -/
 example :
